@@ -231,6 +231,11 @@ int main(int argc, char **argv) {
                   vf_cur_case = base + idx; vf_cur_op = 0; t_replace(src, tok, word);
                   vf_distinct("distinct", vf_hash(word, (size_t)l3, vf_hash(tok, (size_t)l2, vf_hash(src, (size_t)l1, VF_H0 + 99)))); } } } } } }
       vf_count("replace_triples", vf_mine(base) ? idx : 0); base += 100000000; }
+    /* case conversion / reversal / unquoting over every byte value: 1..255 ascending, descending, and each byte between two letters */
+    { long idx = 0; char all[600];
+      for (int v = 0; v < 3; v++, idx++) { if (!vf_mine(base + idx)) continue; int n = 0; if (v == 0) for (int b = 1; b < 256; b++) all[n++] = (char)b; else if (v == 1) for (int b = 255; b >= 1; b--) all[n++] = (char)b; else for (int b = 1; b < 256; b++) { all[n++] = 'a'; all[n++] = (char)b; } all[n] = 0;
+        vf_case_begin(base + idx, "all byte values, layout %d", v); t_misc(all); vf_count("all_byte_value_strings", 1); }
+      base += 100000000; }
     /* formatted duplicate / append: every length 0..80 and 2^k-3 .. 2^k+3 for k = 8..17 (the growth steps of the internal buffer) */
     { long idx = 0; for (size_t l = 0; l <= 80; l++, idx++) if (vf_mine(base + idx)) { vf_case_begin(base + idx, "format length %zu", l); t_format(l); }
       for (int k = 8; k <= (L >= 7 ? 17 : 14); k++) for (long dlt = -3; dlt <= 3; dlt++, idx++) if (vf_mine(base + idx)) { size_t l = (size_t)((1L << k) + dlt); vf_case_begin(base + idx, "format length %zu", l); t_format(l); }
